@@ -10,7 +10,7 @@
    All theorems are about the repaired source shape [fixed_shape] (tie: gen_shape = fixed_shape); what the
    unrepaired shape does is in refuted/R_C34.v. *)
 From Coq Require Import List NArith ZArith Bool String.
-From VGI Require Import Regex M_Wire M_AccessLog L_AccessLog L_AccessLogThm L_AccessLogHist L_AccessLogAll.
+From VGI Require Import Regex M_Wire M_AccessLog L_AccessLog L_AccessLogThm L_AccessLogHist L_AccessLogAll L_AccessLogTs.
 Import ListNotations.
 
 (* exactly one record per dispatched request: for every history, on every transport, the k-th request yields one
@@ -87,6 +87,15 @@ Theorem C34_stream_id_distinct : forall (fresh : nat -> str) c,
 Proof. exact stream_id_distinct. Qed.
 Print Assumptions C34_stream_id_distinct.
 
+(* the timestamp of every record, at every instant: whatever date-time digits strftime yields and whatever the
+   sub-second part (0 .. 999999 microseconds), the rendered value dddd-dd-ddTdd:dd:dd.dddZ passes the schema's
+   timestamp property -- this discharges the timestamp conjunct of [env_ok] for records the formatter stamps *)
+Theorem C34_timestamp_valid : forall y1 y2 y3 y4 m1 m2 d1 d2 h1 h2 i1 i2 s1 s2 micro,
+  Forall is_dig [y1; y2; y3; y4; m1; m2; d1; d2; h1; h2; i1; i2; s1; s2] -> (micro < 1000000)%N ->
+  field_ok P (s "timestamp", JStr (render_ts [y1; y2; y3; y4; 45; m1; m2; 45; d1; d2; 84; h1; h2; 58; i1; i2; 58; s1; s2]%N micro)) = true.
+Proof. exact ts_valid. Qed.
+Print Assumptions C34_timestamp_valid.
+
 (* ---- non-vacuity ------------------------------------------------------------------------------------------- *)
 Definition ex_env : env :=
   {| server_id := s "a1b2c3d4e5f6"; protocol := s "Interp";
@@ -122,4 +131,8 @@ Proof. vm_compute; reflexivity. Qed.
 Example C34_nonempty_ex :
   rec_str (s "error_message") (emit_record ex_cfg ex_env (mk (s "unary") false (WRaise {| xcls := s "ValueError"; xmsg := [] |}) (fun m => m) (Some 500%Z) false true []))
   = Some (s "ValueError").
+Proof. vm_compute; reflexivity. Qed.
+Example C34_timestamp_ex : render_ts (s "2026-04-26T15:30:45") 999999 = s "2026-04-26T15:30:45.999Z".
+Proof. vm_compute; reflexivity. Qed.
+Example C34_timestamp_ex0 : render_ts (s "1970-01-01T00:00:00") 0 = s "1970-01-01T00:00:00.000Z".
 Proof. vm_compute; reflexivity. Qed.
